@@ -664,6 +664,31 @@ func (fc *FnCtx) havocLoop(st *State, body ast.Node, extraVars []types.Object) {
 		}
 		return true
 	})
+	if r := fc.root(); r.ct != nil && len(r.ct.Counts) > 0 {
+		called := map[string]bool{}
+		ast.Inspect(body, func(x ast.Node) bool {
+			if c, ok := x.(*ast.CallExpr); ok {
+				if g, ok := fc.calleeOf(c).(*types.Func); ok {
+					called[g.Name()] = true
+				}
+			}
+			return true
+		})
+		for _, n := range r.ct.Counts {
+			if called[n] {
+				c := fc.smt.fresh("calls", "Int")
+				cur := "0"
+				if st.calls != nil && st.calls[n] != "" {
+					cur = st.calls[n]
+				}
+				st.assume("(>= " + c + " " + cur + ")")
+				if st.calls == nil {
+					st.calls = map[string]string{}
+				}
+				st.calls[n] = c
+			}
+		}
+	}
 	if hasSend {
 		c := fc.smt.fresh("sends", "Int")
 		if st.sends != "" {
